@@ -148,12 +148,9 @@ func checkC17(c CaseC17, x *hx.Ctx) *hx.Failure {
 		if !bytes.Equal(got, m.buf) {
 			return hx.Failf("bytes", "%s: Bytes() has %d bytes, the payloads accepted since the last unit start are %d bytes (first difference at %d)", where, len(got), len(m.buf), firstDiff(got, m.buf))
 		}
-		// mutate the returned slice: later results must not change
-		for i := range got {
-			got[i] ^= 0xFF
-		}
+		// (the statement promises an independent copy for the packet list only: Bytes() is read, not written to)
 		if again := acc.Bytes(); !bytes.Equal(again, m.buf) {
-			return hx.Failf("bytes-alias", "%s: writing to the slice returned by Bytes() changed the accumulator", where)
+			return hx.Failf("bytes-unstable", "%s: a second Bytes() call returns other bytes than the first", where)
 		}
 		pk := acc.Packets()
 		// must be a super-sequence of m.must and a sub-sequence of m.may
@@ -260,7 +257,7 @@ func checkC17(c CaseC17, x *hx.Ctx) *hx.Failure {
 			if shadow != nil {
 				sp := packet.Packet(b)
 				sn, serr = shadow.WritePacket(&sp)
-				if sn != n || serr != err {
+				if sn != n || (serr == nil) != (err == nil) || (err != nil && serr.Error() != err.Error()) {
 					return hx.Failf("reset-differs-from-fresh", "%s: after Reset WritePacket returned (%d,%v), a fresh accumulator returned (%d,%v)", where, n, err, sn, serr)
 				}
 			}
@@ -303,8 +300,16 @@ func checkC17(c CaseC17, x *hx.Ctx) *hx.Failure {
 				switch {
 				case perr != nil:
 					nPredErr++
-					if err != perr {
+					if !errors.Is(err, perr) {
 						return hx.Failf("predicate-error-lost", "%s: the predicate failed (done=%v) but WritePacket returned %v", desc, done, err)
+					}
+					if !done {
+						// whether the packet on which the predicate failed stays accumulated is not stated: follow the implementation
+						if got := acc.Bytes(); len(got) == len(m.buf)-len(rp.Payload) && bytes.Equal(got, m.buf[:len(got)]) && len(rp.Payload) > 0 {
+							m.buf = m.buf[:len(got)]
+							m.must = m.must[:len(m.must)-1]
+							x.Label("predicate-error-rolled-back")
+						}
 					}
 					if done {
 						// complete and failing at once: what the accumulator does afterwards is not fixed by the statement
@@ -314,7 +319,7 @@ func checkC17(c CaseC17, x *hx.Ctx) *hx.Failure {
 					}
 				case done:
 					m.state = 2
-					if err != gots.ErrAccumulatorDone {
+					if !errors.Is(err, gots.ErrAccumulatorDone) {
 						return hx.Failf("done-not-reported", "%s: the predicate holds on the %d accumulated bytes but WritePacket returned %v, want ErrAccumulatorDone", desc, len(m.buf), err)
 					}
 				default:
